@@ -38,6 +38,7 @@ type Gen struct {
 	// T receives the action / condition scripts the generator invents.
 	T     *enc.Tables
 	nact  int
+	nvar  int
 	known []map[string]interface{} // when patterns of recently added rules
 }
 
@@ -134,13 +135,17 @@ func (g *Gen) patternOf(d map[string]interface{}, vars []string) map[string]inte
 		switch g.R.Intn(4) {
 		case 0: // drop
 		case 1:
-			if _, container := v.(map[string]interface{}); container && len(vars) == 1 {
-				continue // a repeated variable over containers: sheens' partial re-match (known finding C05)
+			// A variable that meets a container value is never used twice in a history:
+			// the matcher re-matches a bound container partially (known finding C05,
+			// D_REBIND_PARTIAL), which is about matching, not about what this history checks.
+			_, isMap := v.(map[string]interface{})
+			_, isArr := v.([]interface{})
+			if isMap || isArr {
+				g.nvar++
+				p[k] = fmt.Sprintf("?c%d", g.nvar)
+			} else {
+				p[k] = g.pick(vars)
 			}
-			if _, container := v.([]interface{}); container && len(vars) == 1 {
-				continue
-			}
-			p[k] = g.pick(vars)
 		default:
 			switch vv := v.(type) {
 			case map[string]interface{}:
@@ -179,7 +184,8 @@ func (g *Gen) Pattern() map[string]interface{} {
 		p = map[string]interface{}{}
 		for i, k := 0, g.R.Intn(3); i < k; i++ {
 			if g.R.Intn(2) == 0 {
-				p[g.pick(topKeys)] = g.pick(vars)
+				// a different variable per key: what it meets may be a container (see patternOf)
+				p[g.pick(topKeys)] = []string{"?x", "?y", "?z"}[i]
 			} else {
 				p[g.pick(topKeys)] = g.scalar()
 			}
@@ -304,7 +310,8 @@ func (g *Gen) ixValue(depth int) interface{} {
 	case n < 5:
 		return ixScalars[g.R.Intn(len(ixScalars))]
 	case n < 8:
-		return []string{"?x", "?y"}[g.R.Intn(2)]
+		g.nvar++
+		return fmt.Sprintf("?v%d", g.nvar%5) + fmt.Sprintf("%d", g.nvar) // never repeated: may meet a container
 	case n < 11 && depth > 0:
 		m := map[string]interface{}{}
 		for i, k := 0, g.R.Intn(3); i < k; i++ {
@@ -495,7 +502,7 @@ func (g *Gen) weighted() string {
 	panic("weights")
 }
 
-var opOrder = []string{"CreateLocation", "AddFact", "RemFact", "GetFact", "SearchFacts", "AddRule", "RemRule", "GetRule",
+var opOrder = []string{"BadRequest", "CreateLocation", "AddFact", "RemFact", "GetFact", "SearchFacts", "AddRule", "RemRule", "GetRule",
 	"EnableRule", "SetParents", "GetParents", "Clear", "StateSize", "ListRules", "SearchRules",
 	"ProcessEvent", "SetReadOnly", "Reload", "Sleep", "SetKey"}
 
@@ -556,6 +563,8 @@ func (g *Gen) Next() Op {
 		delete(op.Val, "expires")
 	case "SetReadOnly":
 		op.Flag = g.R.Intn(2) == 0
+	case "BadRequest":
+		op.Id = g.pick([]string{"missing-location", "missing-fact", "fact-not-a-map", "unknown-uri", "empty-body", "location-not-string"})
 	case "SetKey":
 		// a write/read key or the enabled flag, set through the fact API
 		op.Op = "AddFact"
